@@ -826,6 +826,154 @@ Proof.
     + exact A10.
 Qed.
 
+(* ---------- union ---------- *)
+Lemma assoc_s_find (ls : slabels) n L :
+  assoc_s n (map (fun u => (label ls u, u)) L) = find (fun u => String.eqb (label ls u) n) L.
+Proof.
+  induction L as [|u L IH]; [reflexivity|]. simpl. rewrite String.eqb_sym.
+  destruct (String.eqb (label ls u) n); [reflexivity|exact IH].
+Qed.
+
+Lemma map_opt_spec {X Y} (f : X -> option Y) : forall l ys, map_opt f l = Some ys -> Forall2 (fun x y => f x = Some y) l ys.
+Proof.
+  induction l as [|x l IH]; intros ys H; simpl in H.
+  - inversion H. constructor.
+  - destruct (f x) as [y|] eqn:E; [|discriminate]. destruct (map_opt f l) as [ys'|]; [|discriminate].
+    inversion H; subst. constructor; [exact E|apply IH; reflexivity].
+Qed.
+
+Lemma dedup_rel (vis : row -> list value) : forall all vals seen,
+  Forall2 (fun r v => vis r = v) all vals ->
+  Forall2 (fun r v => vis r = v) (dedup_rows seen vis all) (dedup_vals seen vals).
+Proof.
+  induction all as [|r all IH]; intros vals seen H; inversion H as [|? v ? vals' Hrv Hrest]; subst; simpl; [constructor|].
+  destruct (existsb (values_eqb (vis r)) seen); [apply IH; exact Hrest|].
+  constructor; [reflexivity|apply IH; exact Hrest].
+Qed.
+
+Lemma label_self (ls : slabels) L u : In u L -> label (map (fun x => (x, label ls x)) L) u = label ls u.
+Proof.
+  unfold label at 1. induction L as [|y L IH]; intros H; [destruct H|]. simpl.
+  destruct (N.eqb_spec u y) as [E|E]; [subst; reflexivity|].
+  destruct H as [H|H]; [congruence|]. apply IH. exact H.
+Qed.
+
+Lemma def_self L u : In u L -> def_of (map (fun x => (x, ECol x)) L) u = ECol u.
+Proof.
+  unfold def_of. induction L as [|y L IH]; intros H; [destruct H|]. simpl.
+  destruct (N.eqb_spec u y) as [E|E]; [subst; reflexivity|].
+  destruct H as [H|H]; [congruence|]. apply IH. exact H.
+Qed.
+
+Definition union_compiled (cl cr : compiled) (rsel : list uid) (distinct : bool) : compiled :=
+  let lsel := q_select (c_q cl) in
+  {| c_from := FRows (fun d =>
+                 let all := f_rows (sem_query d cl) ++ f_rows (sem_query d (with_q cr (set_select (c_q cr) rsel))) in
+                 if distinct then dedup_vals [] all else all);
+     c_cols := lsel; c_q := q0 lsel;
+     c_labels := map (fun u => (u, label (c_labels cl) u)) lsel;
+     c_defs := map (fun u => (u, ECol u)) lsel;
+     c_scope := lsel |}.
+
+Lemma Forall2_map_l_inv {A B C} (R : C -> B -> Prop) (f : A -> C) : forall l l',
+  Forall2 R (map f l) l' -> Forall2 (fun a b => R (f a) b) l l'.
+Proof.
+  induction l as [|a l IH]; intros l' H; simpl in H; inversion H; subst; constructor; auto.
+Qed.
+
+Lemma zip_row_get_in (f : uid -> value) L x : In x L -> get (zip_row L (map f L)) x = f x.
+Proof. apply get_zip_row_map. Qed.
+
+Lemma Forall2_map_self {A B} (f g : A -> B) (L : list A) : (forall x, f x = g x) -> Forall2 (fun r v => f r = v) L (map g L).
+Proof. intros H. induction L; simpl; constructor; auto. Qed.
+
+Lemma get_zip_other L : forall vs u v x, x <> u -> get (zip_row (u :: L) (v :: vs)) x = get (zip_row L vs) x.
+Proof. intros vs u v x N. simpl. destruct (N.eqb_spec u x); [congruence|reflexivity]. Qed.
+
+Lemma zip_vis : forall L vs, NoDup L -> List.length vs = List.length L -> map (get (zip_row L vs)) L = vs.
+Proof.
+  induction L as [|u L IH]; intros [|v vs] ND Hlen; simpl in Hlen; try discriminate; [reflexivity|].
+  inversion ND as [|? ? Hnin ND']; subst. cbn [map]. f_equal.
+  - simpl. rewrite N.eqb_refl. reflexivity.
+  - rewrite <- (IH vs ND') at 2 by (injection Hlen; auto).
+    apply map_ext_in. intros x Hx. apply get_zip_other. intros E. subst. contradiction.
+Qed.
+
+Lemma union_case d sl sr cl cr rsel distinct :
+  Inv d sl cl -> Aux cl -> Inv d sr cr -> Aux cr ->
+  union_right_select cl cr = Some rsel -> NoDup (q_select (c_q cl)) ->
+  Inv d (do_union sl sr distinct) (union_compiled cl cr rsel distinct) /\ Aux (union_compiled cl cr rsel distinct).
+Proof.
+  intros Il Al Ir Ar Hsel ND. set (lsel := q_select (c_q cl)) in *.
+  pose proof (map_opt_spec _ _ _ Hsel) as Hfind. unfold by_name in Hfind.
+  apply Forall2_map_l_inv in Hfind. fold lsel in Hfind.
+  assert (Hrin : forall u, In u rsel -> In u (q_select (c_q cr))).
+  { clear Hsel ND. induction Hfind as [|n y L ys Hny _ IH]; intros u Hu; [destruct Hu|].
+    destruct Hu as [<-|Hu]; [|apply IH; exact Hu]. apply find_some in Hny. tauto. }
+  (* the two operands as frames *)
+  pose proof (inv_frame d sl cl Il Al) as Fl.
+  assert (Hforall : forallb (fun u => mem_u u (q_select (c_q cr))) rsel = true).
+  { apply forallb_forall. intros u Hu. apply mem_u_In. apply Hrin. exact Hu. }
+  destruct (select_case d sr cr rsel Ir Ar Hforall) as [Ir' Ar'].
+  pose proof (inv_frame d _ _ Ir' Ar') as Fr.
+  destruct Il as [Rl Sl Gl]. destruct Ir as [Rr Sr Gr].
+  assert (ELr : f_rows (sem_query d cl) = map (fun r => map (get r) lsel) (rows sl)).
+  { rewrite <- Fl. unfold export_ref. cbn [f_rows]. rewrite Sl. apply map_ext. intros r. rewrite map_map. reflexivity. }
+  assert (ERr : f_rows (sem_query d (with_q cr (set_select (c_q cr) rsel))) = map (fun r => map (get r) rsel) (rows sr)).
+  { rewrite <- Fr. unfold export_ref. cbn [f_rows sel rows]. apply map_ext. intros r. rewrite map_map. reflexivity. }
+  (* a converted right row is the right row projected on the reordered select list, keyed by the left uids *)
+  assert (Econv : forall rr,
+    map (fun p : string * uid => (snd p, match assoc_s (fst p) (sel sr) with Some ur => get rr ur | None => VErr end)) (sel sl)
+    = zip_row lsel (map (get rr) rsel)).
+  { intros rr. rewrite Sl, Sr, map_map. cbn [fst snd]. fold lsel. clear - Hfind.
+    induction Hfind as [|u y L ys Huy _ IH]; [reflexivity|]. simpl. rewrite assoc_s_find, Huy, IH. reflexivity. }
+  assert (Hlen : List.length rsel = List.length lsel).
+  { symmetry. apply (Forall2_length' _ _ _ Hfind). }
+  split.
+  - constructor.
+    + (* rows *)
+      assert (FU : final_units d (union_compiled cl cr rsel distinct)
+                   = let iw := index_rows (base_rows d (union_compiled cl cr rsel distinct)) in map (fun ir => (iw, ir)) iw).
+      { unfold final_units, units, units_of, order_units, cut. cbn [union_compiled c_q q0 q_limit q_order q_summ q_where q_having c_defs].
+        rewrite !(filter_ext (all_true _ []) (fun _ => true)) by reflexivity.
+        rewrite (filter_ext (fun r => all_true _ [] (mk1 r)) (fun _ => true)) by reflexivity. rewrite !filter_true. reflexivity. }
+      rewrite FU. cbv zeta. apply Forall2_map_r.
+      generalize (index_rows (base_rows d (union_compiled cl cr rsel distinct))) at 1. intros ctx.
+      apply Forall2_index_rows_r.
+      unfold base_rows. cbn [union_compiled c_from c_cols c_scope c_defs]. fold lsel. rewrite ELr, ERr.
+      cbn [rows do_union].
+      set (vis := fun x : row => map (fun p : string * uid => get x (snd p)) (sel sl)).
+      assert (Evis : forall x, vis x = map (get x) lsel).
+      { intros x. unfold vis. rewrite Sl, map_map. reflexivity. }
+      set (all := rows sl ++ map (fun rr => map (fun p : string * uid => (snd p, match assoc_s (fst p) (sel sr) with Some ur => get rr ur | None => VErr end)) (sel sl)) (rows sr)).
+      set (vals := map (fun r => map (get r) lsel) (rows sl) ++ map (fun r => map (get r) rsel) (rows sr)).
+      assert (Hall : Forall2 (fun r v => vis r = v) all vals).
+      { unfold all, vals. apply Forall2_app.
+        - apply Forall2_map_self. exact Evis.
+        - apply Forall2_map_l. apply Forall2_map_self. intros rr. rewrite Evis, Econv.
+          apply zip_vis; [exact ND|]. rewrite map_length. exact Hlen. }
+      assert (Hfin : Forall2 (fun r v => vis r = v) (if distinct then dedup_rows [] vis all else all)
+                                                    (if distinct then dedup_vals [] vals else vals)).
+      { destruct distinct; [apply dedup_rel|]; exact Hall. }
+      apply Forall2_map_r. eapply Forall2_impl'; [|exact Hfin].
+      intros r v Hrv i x Hx. unfold evd. cbn [fst snd]. rewrite (def_self lsel x Hx). simpl.
+      rewrite <- Hrv, Evis. symmetry. apply (zip_row_get_in (get r) lsel x Hx).
+    + cbn [sel do_union union_compiled c_q q0 q_select c_labels]. fold lsel. rewrite Sl. fold lsel.
+      apply map_ext_in. intros u Hu. rewrite (label_self (c_labels cl) lsel u Hu). reflexivity.
+    + reflexivity.
+  - constructor; cbn [union_compiled c_q q0 c_defs c_labels c_scope q_select q_part q_group q_where q_having q_order q_summ q_limit q_offset]; fold lsel.
+    + intros x Hx. rewrite map_map. simpl. rewrite map_id. exact Hx.
+    + auto.
+    + intros x Hx. rewrite map_map. simpl. rewrite map_id. exact Hx.
+    + intros x Hx. destruct Hx.
+    + intros x Hx. destruct Hx.
+    + intros p Hp. destruct Hp.
+    + intros p Hp. destruct Hp.
+    + intros o Ho. destruct Ho.
+    + intros _. split; reflexivity.
+    + intros l H. discriminate H.
+Qed.
+
 (* ---------- the theorem ---------- *)
 Theorem compile_invariant d : forall a c, compile a = Some c -> flat_ok a = true -> Inv d (sem_ref d a) c /\ Aux c.
 Proof.
@@ -879,7 +1027,13 @@ Proof.
   - destruct m as [m|]; [simpl in C; discriminate C|]. simpl in C, F. cbn [sem_ref do_alias]. apply IH; assumption.
   - simpl in C. discriminate C.
   - simpl in C. discriminate C.
-  - simpl in C. discriminate C.
+  - cbn [compile] in C. cbn [flat_ok] in F.
+    destruct (compile l) as [cl|] eqn:El; [|discriminate C]. destruct (compile r) as [cr|] eqn:Er; [|discriminate C].
+    destruct (union_right_select cl cr) as [rsel|] eqn:Es; [|discriminate C]. inversion C; subst; clear C.
+    apply andb_prop in F. destruct F as [F Fnd]. apply andb_prop in F. destruct F as [Fl Fr].
+    destruct (IHl cl eq_refl Fl) as [Il Al]. destruct (IHr cr eq_refl Fr) as [Ir Ar].
+    cbn [sem_ref]. apply (union_case d (sem_ref d l) (sem_ref d r) cl cr rsel dis); try assumption.
+    apply nodup_u_NoDup. exact Fnd.
 Qed.
 
 (* COMPILE CORRECTNESS of the single-SELECT fragment: for ALL data, the meaning of the SELECT statement
